@@ -785,7 +785,7 @@ func TestC19(t *testing.T) {
 			default:
 				o = g.next()
 			}
-			f.lastErr = nil
+			f.lastErr, f.growGap = nil, false
 			out, err := f.exec(o, st)
 			if le := f.lastErr; le != nil && strings.Contains(le.Error(), "maxLinks reached") ||
 				err != nil && strings.Contains(err.Error(), "maxLinks reached") {
